@@ -29,6 +29,9 @@ type CConfig struct {
 	// NoHandlers: the client has neither OnNotify nor OnCallback, so requests
 	// from the peer have nowhere to go (and must still never complete a call).
 	NoHandlers bool `json:"no_handlers,omitempty"`
+	// HookCalls: the OnCancel hook tells the peer (a Notify with a fresh context,
+	// the use its documentation names) and the OnStop hook asks IsStopped.
+	HookCalls bool `json:"hook_calls,omitempty"`
 }
 
 // ReplyItem is one member of a record the scripted peer sends.
@@ -54,6 +57,10 @@ type CStep struct {
 	// ("chan": cannot be marshalled; "scalar": not an array or object) - it fails
 	// at once, transmits nothing and leaves the client usable.
 	BadParams string `json:"bad_params,omitempty"`
+	// NoSpecs: a Batch without specs ("nil" slice or "empty" non-nil slice).
+	NoSpecs string `json:"no_specs,omitempty"`
+	// After: ctxcancel takes effect this many fake nanoseconds later.
+	After int `json:"after,omitempty"`
 }
 
 func (s CStep) String() string {
@@ -65,12 +72,15 @@ func (s CStep) String() string {
 	case "call", "callresult", "notify":
 		return fmt.Sprintf("%s%s #%d ctx=%s d=%d %s", b, s.Op, s.K, s.Ctx, s.D, s.BadParams)
 	case "batch":
-		return fmt.Sprintf("%sbatch #%d specs(notify)=%v ctx=%s d=%d", b, s.K, s.Specs, s.Ctx, s.D)
+		return fmt.Sprintf("%sbatch #%d specs(notify)=%v%s ctx=%s d=%d", b, s.K, s.Specs, s.NoSpecs, s.Ctx, s.D)
 	case "reply":
 		return fmt.Sprintf("%sreply array=%v %+v", b, s.Array, s.Items)
 	case "raw":
 		return fmt.Sprintf("%sraw %s", b, engine.Q(s.Raw))
 	case "ctxcancel", "cbrelease":
+		if s.After > 0 {
+			return fmt.Sprintf("%s%s #%d after %dns", b, s.Op, s.K, s.After)
+		}
 		return fmt.Sprintf("%s%s #%d", b, s.Op, s.K)
 	case "advance":
 		return fmt.Sprintf("%sadvance %dms", b, s.D)
@@ -347,6 +357,9 @@ func (w *cworld) exec(i int, st CStep) {
 			defer w.ops.Done()
 			defer cancel()
 			var specs []jrpc2.Spec
+			if st.NoSpecs == "empty" {
+				specs = []jrpc2.Spec{}
+			}
 			for j, note := range st.Specs {
 				specs = append(specs, jrpc2.Spec{Method: MethodName("m", st.K+j), Params: map[string]int{"op": st.K, "i": j}, Notify: note})
 			}
@@ -376,6 +389,20 @@ func (w *cworld) exec(i int, st CStep) {
 		w.mu.Lock()
 		c := w.cancels[st.K]
 		w.mu.Unlock()
+		if st.After > 0 {
+			// later on the fake clock, so that it can fall between the steps
+			// of a delivery that is under way
+			w.ops.Add(1)
+			go func() {
+				defer w.ops.Done()
+				w.sched.Sleep(time.Duration(st.After))
+				w.log(CEvent{Kind: "ctxcancel", K: st.K})
+				if c != nil {
+					c()
+				}
+			}()
+			break
+		}
 		w.log(CEvent{Kind: "ctxcancel", K: st.K})
 		if c != nil {
 			c()
@@ -542,8 +569,15 @@ func RunClient(t *testing.T, sc CScenario) (h *CHistory) {
 			},
 			OnCancel: func(cli *jrpc2.Client, rsp *jrpc2.Response) {
 				w.log(CEvent{Kind: "oncancel", ID: rsp.ID()})
+				if sc.Cfg.HookCalls {
+					nerr := cli.Notify(context.Background(), "hook.cancelled", []string{rsp.ID()})
+					w.log(CEvent{Kind: "hook-notify", ID: rsp.ID(), Err: errStr(nerr)})
+				}
 			},
 			OnStop: func(cli *jrpc2.Client, err error) {
+				if sc.Cfg.HookCalls {
+					w.log(CEvent{Kind: "isstopped", Class: "in-onstop", Data: fmt.Sprint(cli.IsStopped())})
+				}
 				class := "error"
 				switch {
 				case err == nil:
